@@ -195,8 +195,10 @@ class LoopRun:
         self.lid = lid
         self.c = cur()
         extra = set(mods) - set(spec.names) - set(spec.local)
-        if extra:
-            raise StaleContract(f"loop {lid}: body assigns {sorted(extra)}, not covered by the loop contract")
+        # names the contract does not know are treated as loop-local temporaries (not havocked: reading one before it is assigned
+        # in an iteration raises UnboundLocalError on the explored path and is reported); only a havocked name that disappeared
+        # from the body makes the anchor stale
+        self.extra_locals = sorted(extra)
         self.st = {}
 
     def begin(self, iterable, env):
